@@ -110,6 +110,23 @@ def full_mantissa(rng, sh, near=None):
     return sh
 
 
+def far_tight(rng, sa, sb):
+    """A tight pair (exponents within a factor 4 of the cap of published sets for that l: 1e5 for s, 1e4 for p, ...)
+    on nearly coincident centres, 100-150 bohr away (per axis) from the coordinate origin ("any centres"), full-mantissa
+    coordinates: translation-invariant formulas are insensitive to this, algebraically identical rewrites through
+    absolute coordinates (exp(p P^2 - a A^2 - b B^2), |r|^2 - 2 r.R + |R|^2) lose 7-9 digits here."""
+    import math
+    from lib import exp_cap
+    for sh in (sa, sb):
+        cap = float(exp_cap(sh.l))
+        sh.exps = [Fraction(math.exp(rng.uniform(math.log(cap / 4), math.log(cap)))) for _ in sh.exps]
+    t = [rng.choice([-1, 1]) * rng.uniform(100, 150) for _ in range(3)]
+    w = 1.0 / float(min(min(sa.exps), min(sb.exps))) ** 0.5
+    sa.coord = [Fraction(x) for x in t]
+    sb.coord = [Fraction(x + rng.uniform(-w, w)) for x in t]
+    return sa, sb
+
+
 def gen_cases(tier, seed, salt, lmax_block=5, lmax_basis=3, extra=None, nb_quick=40, nb_thorough=300,
               block_reps_thorough=4, with_T=True, exp_hi=None, kcap_big=None, lmax_pairs=None):
     """Every (la, lb) pair at block level (K 1-4, M 1-3; coincident / collinear / far-apart-compact geometries);
@@ -150,6 +167,16 @@ def gen_cases(tier, seed, salt, lmax_block=5, lmax_basis=3, extra=None, nb_quick
             if extra:
                 c.update(extra(rng, "block", [sa, sb]))
             cases.append(c)
+    # tight pairs far from the origin (8 in quick, 40 x scale in thorough), l <= 3
+    for i in range(8 if tier == "quick" else 40 * scale):
+        la, lb = rng.choice([0, 0, 0, 1, 1, 2]), rng.choice([0, 0, 0, 1, 1, 2])
+        sa = gen_shell(rng, l=la, kmax=2, mmax=2, sph=False, exp_hi=exp_hi)
+        sb = gen_shell(rng, l=lb, kmax=2, mmax=2, sph=False, exp_hi=exp_hi)
+        far_tight(rng, sa, sb)
+        c = {"kind": "block", "a": sa.to_json(), "b": sb.to_json()}
+        if extra:
+            c.update(extra(rng, "block", [sa, sb]))
+        cases.append(c)
     # enumerated: two shells on ONE (off-origin) centre, every (la, lb) and every type assignment
     if lmax_pairs is None:
         lmax_pairs = min(lmax_block, 4)
